@@ -153,6 +153,34 @@ inductive Resolvable (reg : Registry) : Mod → List Stmt → Stmt → Prop
       Resolvable reg m (td :: sc) tt →
       (∀ ut ∈ t.all "type", Resolvable reg root (t :: scope) ut) → Resolvable reg root scope t
 
+/-! ### Cyclic definitions -/
+
+/-- A type statement in its place: the module it stands in, its enclosing statements, itself. -/
+abbrev Site := Mod × List Stmt × Stmt
+
+/-- `Uses reg a b`: resolving the type statement at `a` needs the type statement at `b`: `b` is the
+type statement of the typedef `a` names, or one of `a`'s member types. -/
+inductive Uses (reg : Registry) : Site → Site → Prop
+  | base {root : Mod} {scope : List Stmt} {t : Stmt} (m : Mod) (td : Stmt) (sc : List Stmt) (tt : Stmt) :
+      Binds reg root scope t.arg m td sc → td.one? "type" = some tt → Uses reg (root, scope, t) (m, td :: sc, tt)
+  | member {root : Mod} {scope : List Stmt} {t : Stmt} (ut : Stmt) :
+      ut ∈ t.all "type" → Uses reg (root, scope, t) (root, t :: scope, ut)
+
+/-- One or more `Uses` steps. -/
+inductive UsesPlus (reg : Registry) : Site → Site → Prop
+  | one {a b : Site} : Uses reg a b → UsesPlus reg a b
+  | cons {a b c : Site} : Uses reg a b → UsesPlus reg b c → UsesPlus reg a c
+
+/-- The type statement at `a` is defined in terms of itself, or needs one that is. -/
+def Cyclic (reg : Registry) (a : Site) : Prop :=
+  (∃ b, (b = a ∨ UsesPlus reg a b) ∧ UsesPlus reg b b)
+
+/-- No name denotes two typedefs (RFC 7950: a typedef name is declared once per scope, once per
+module and its submodules; prefixes of imports are distinct). -/
+def Unambiguous (reg : Registry) : Prop :=
+  ∀ root scope name m td sc m' td' sc', Binds reg root scope name m td sc → Binds reg root scope name m' td' sc' →
+    m = m' ∧ td = td' ∧ sc = sc'
+
 /-- One statement of a derivation chain. -/
 inductive Link where
   /-- a `type` statement, with the module it stands in and its enclosing statements -/
